@@ -11,6 +11,7 @@ import (
 	"github.com/klev-dev/klevdb/pkg/index"
 	"github.com/klev-dev/klevdb/pkg/kdir"
 	"github.com/klev-dev/klevdb/pkg/message"
+	"github.com/klev-dev/klevdb/pkg/vhook"
 )
 
 type Segment struct {
@@ -312,6 +313,7 @@ func (s Segment) Backup(targetDir string) error {
 	if err := copyFile(s.Log, targetLog); err != nil {
 		return fmt.Errorf("backup log copy: %w", err)
 	}
+	vhook.At("backup.betweenLogAndIndex")
 
 	indexName, err := filepath.Rel(s.Dir, s.Index)
 	if err != nil {
